@@ -118,6 +118,23 @@ CHECKS = {
         ],
         'assumptions': ASSUME_COMMON + ['the ledger hooks in message.go (verif tag) report every NewMessage / Clone / Free; released buffers are poisoned by the hook'],
     },
+    'C18': {
+        'level': 'model_checking',
+        'jobs': [
+            T('MC_Req', 'Req_q18.cfg'), T('MC_RawSock', 'Raw_xpush_fnp.cfg'), T('MC_RepLike', 'Rep_quick.cfg'),
+            T('MC_Req', 'Req_2ctx_deadl.cfg', tiers=('thorough',)), T('MC_Req', 'Req_2ctx_be.cfg', tiers=('thorough',)),
+            T('MC_Req', 'Req_2ctx_fnp.cfg', tiers=('thorough',)),
+            C('req', 'TestReq', 'TraceReq', n={'quick': 25, 'thorough': 400}, env={'VERIF_MIX': 'deadline'}),
+            C('rep', 'TestRep', 'TraceRep', n={'quick': 15, 'thorough': 300}, env={'VERIF_MIX': 'deadline'}),
+            C('respondent', 'TestRespondent', 'TraceRespondent', n={'quick': 15, 'thorough': 300}, env={'VERIF_MIX': 'deadline'}),
+            C('sub', 'TestSub', 'TraceSub', n={'quick': 15, 'thorough': 300}, env={'VERIF_MIX': 'deadline'}),
+            C('surveyor', 'TestSurveyor', 'TraceSurveyor', n={'quick': 15, 'thorough': 300}, env={'VERIF_MIX': 'deadline'}),
+        ] + [dict(R(p, e), env={'VERIF_RAW_PROTOS': p, 'VERIF_MIX': 'deadline'}, n={'quick': 6, 'thorough': 200})
+             for p, e in [('xpair', 'xpair'), ('xpair1', 'xpair1'), ('xreq', 'xreq'), ('xpush', 'xpush'), ('push', 'xpush'),
+                          ('xpull', 'xpull'), ('xsub', 'xsub'), ('xsurveyor', 'xsurveyor'), ('xbus', 'xbus'), ('xstar', 'xstar'),
+                          ('xrep', 'xrep'), ('xrespondent', 'xrespondent'), ('xpub', 'xpub'), ('pair', 'xpair')]],
+        'assumptions': ASSUME_COMMON,
+    },
     'C02': {
         'level': 'model_checking',
         'jobs': [
